@@ -11,7 +11,7 @@ U = 100  # seconds of driver time per clock unit of the design model
 
 AF_DEFAULT = dict(Checks="{1,2,3}", Filters="{1}", MaxSid=2, MaxTok=3, MaxCode=2, MaxTime=2, TokLife=1, MaxFaults=0,
                   MaxInFlight=1, Kinds='{"app","callback","logout"}', Attacker="FALSE", WriteCreatesAbsent="TRUE",
-                  KeyedByIdOnly="TRUE", Export="FALSE")
+                  KeyedByIdOnly="TRUE", ClearAbsentFails="FALSE", Export="FALSE")
 SCN_DEFAULT = dict(Prepared='"none"', Target=0, MaxLogouts=0, MaxApps=0, MaxCallbacks=0, AllowTick="FALSE", AllowAuthz="FALSE")
 
 
@@ -377,9 +377,10 @@ def c09(W, replay=None):
             fams += [("expired", dict(MaxApps=2)), ("fresh", dict(MaxApps=2)), ("midLogin", dict(MaxCallbacks=1, MaxApps=1)), ("expiredNoRt", dict(MaxApps=1))]
         for prep, kw in fams:
             infl = 1 + sum(kw.values())
-            ms = export(W, "c09-%s-%s" % (prep, "-".join("%s%d" % kv for kv in kw.items())), Prepared='"%s"' % prep, Target=1, MaxLogouts=1,
-                        MaxInFlight=infl, Checks="{1,2,3,4,5,6}", MaxSid=4, MaxTok=5, TokLife=1, Kinds='{"app","callback","logout"}', **kw)
             for stname in ("memory", "redis"):
+                ms = export(W, "c09-%s-%s-%s" % (prep, "-".join("%s%d" % kv for kv in kw.items()), stname), Prepared='"%s"' % prep, Target=1, MaxLogouts=1,
+                            MaxInFlight=infl, Checks="{1,2,3,4,5,6}", MaxSid=4, MaxTok=5, TokLife=1, Kinds='{"app","callback","logout"}',
+                            ClearAbsentFails="TRUE" if stname == "redis" else "FALSE", **kw)
                 for i, m in enumerate(ms):
                     scen.append(conv(m, "c09/%s/%s/%s/%d" % (stname, prep, "-".join(kw), i), 1, store=stname,
                                      filters=[F1 if i % 2 == 0 else dict(F1, prefix="tenant-7")],
